@@ -56,6 +56,15 @@ CHECKS = {
          'among the device OKAYs; five reason strings; the FAIL record cut at every set of <=2 positions; every sync id that is invalid at that point for pull/list/stat/push; both twins. '
          'Oracle: documented exception type carrying the reason, never a normal return, never a timeout class, no virtual time spent.',
          'trusts adbsim (FAIL handling per handle_send_file); ids outside the sync id table unspecified', '4/C10'),
+ 'C05': ('model_checking', 'exhaustive exploration of the real connect() against a device whose every AUTH decision is a choice point, compared with a reference handshake spec',
+         'All device decision sequences (first reply, reply to each signature, reply to the public key incl. delays around the auth timeout, silence) for 0..4 (thorough 5) keys x callback '
+         'none/recording/raising x CNXN maxdata x str/bytes public keys x <=2 stray packets x twins, and a second connect() under every outcome of the first; the expected host packet sequence, '
+         'return/exception, `available`, callback count/position and adopted maxdata are derived from the reference spec. Complete for the decision alphabet.',
+         'trusts mc/auth.py; stub signers (RSA itself is C17)', '4/C05'),
+ 'C11': ('fault_enumeration', 'exhaustive enumeration of (operation, awaited packet, stall kind, timeout grid) under a virtual clock',
+         'Every operation x every device->host packet it awaits x {silence, end-of-stream, trickle x4, endless foreign traffic, endless unexpected packets} x a 4x4x4 timeout grid (None, 0, '
+         'negative included), 1 ms of virtual time per transport call: the call must raise a timeout class within 4x(read+transport)+total, never return, never block forever (Hang / watchdog '
+         'verdicts), and hand the transport only timeouts <= the effective read timeout.', 'trusts adbsim and the virtual clock; auth_timeout_s=None excluded', '4/C11'),
 }
 NOT_YET = 'check not built yet in this round (planned, see DESIGN.md section 4); not claimed until it runs'
 
